@@ -106,6 +106,7 @@ func c05(r *core.Run) {
 
 	r.Rule("M1", "field table: every field of the decoded payload struct is copied exactly once into one request field, each such field is returned by exactly one exported accessor, the map is injective; resource name/params/group/handler/listeners come from the routed Match and the subject; payload JSON keys agree with the client package's Request", 15)
 	r.Rule("M2", "payload decoding: the payload struct is filled by encoding/json.Unmarshal - which validates the whole input, unlike a streaming Decoder that stops after the first value - applied to the message's Data bytes, and its error edge replies with an error before dispatch ('payload not JSON' -> system.internalError)", 2)
+	r.Rule("M3", "path parameters as sent (shared with C06.R4): the match record's node, mount index and params are written together at each accept site and rebased with that same mount index, and the Match handed to request processing takes its params from that record; a mount index that survives backtracking shifts every path parameter", 6)
 	r.Rule("D1", "exhaustive dispatch: the request-type constants the dispatcher switches on = the request types subscribe() subscribes to", 1)
 	r.Rule("D2", "method lookup: call and auth alike index the method map by the request's method, fall back to \"*\" on the nil edge, reply methodNotFound when still nil and call exactly that value; call.new prefers the New handler when set", 4)
 	r.Rule("D3", "method split agreement: the request types for which the message handler strips a trailing method token = the types for which subscribe appends a method wildcard", 1)
@@ -113,6 +114,9 @@ func c05(r *core.Run) {
 	r.Rule("E2", "static outcomes: no-resource and get-without-handler reply with the notFound literal, unknown call/auth method with the methodNotFound literal, a handler that returned without replying reaches the fallback that replies with an internalError literal; literals carry the matching Code* constant", 6)
 
 	root := p.FuncsOfPkg("")
+	if ro := resolveMuxRolesFor(r, "M3"); ro != nil {
+		c06MatchAssembly(r, "M3", root, ro)
+	}
 	models := c04Models(r, "M1")
 	mReq := models["Request"]
 	if mReq == nil {
